@@ -669,6 +669,14 @@ func TestVerifC08(t *testing.T) {
 			}
 		}
 	}()
+	// history dimension (one shard, one process-long sequence): see zz_verif_c08_hist_test.go
+	if r.Mine() {
+		K := 10000
+		if thorough {
+			K = 70000
+		}
+		c08history(r, K)
+	}
 	for n := 2; n <= maxN; n++ {
 		for th := 2; th <= n; th++ {
 			for si := range secrets {
@@ -679,6 +687,20 @@ func TestVerifC08(t *testing.T) {
 					return
 				}
 				x.unit(n, th, si)
+			}
+		}
+	}
+	if !thorough {
+		// the largest cluster size of the statement also in the quick tier (share index 10 is the first two-digit index)
+		for _, th := range []int{2, 7, 10} {
+			for si := 0; si < 2 && si < len(secrets); si++ {
+				if !r.Mine() {
+					continue
+				}
+				if r.Expired() {
+					return
+				}
+				x.unit(10, th, si)
 			}
 		}
 	}
